@@ -1,0 +1,15 @@
+//go:build verif
+
+// Machine-checked contracts for package expr (comment-only; read by /verif/gocv).
+
+package expr
+
+// The engine's locator table exists from construction on; its environment is made by New right after the literal
+// (two-step construction), so that one is a precondition of the only method that writes into it: every engine comes
+// from New (the registered constructor).
+//@ type Expr
+//@   field itemAwareLocators nonnil
+
+//@ func (*Expr).EvaluateExpression
+//@   prop C17 C04
+//@   requires [the-environment-was-made-by-New] engine.env != nil
